@@ -17,6 +17,8 @@ long w_vm_preprocess(void* p, const char* text, size_t n, char* buf, size_t cap)
 int w_vm_run_sqf(void* p, const char* code, size_t n, int preprocess);
 size_t w_val_tostring(const sqf::runtime::value* v, char* buf, size_t cap);
 void w_vm_set_cfg(void* p, int what, long val);
+int w_vm_execute(void* p, int action);
+int w_vm_state(void* p);
 static std::map<int, float> g_f; static std::map<int, int> g_b;
 void verif_log(void*, int level, size_t code, const char* msg, size_t len) { printf("LOG %d %zu %.*s\n", level, code, (int)len, msg); }
 float verif_hole_f(int id) { return g_f[id]; }
@@ -30,6 +32,31 @@ int main(int argc, char** argv)
     if (argc < 3) return 2;
     setvbuf(stdout, nullptr, _IOLBF, 0);
     std::string op = argv[1];
+    if (op == "runs")
+    {   // runs <ops> then groups separated by "--": <hex text> [holes...]; all on ONE vm; abort after a failed run (as CLI/API do)
+        int ops = atoi(argv[2]);
+        void* vm = w_vm_new(ops, 0, 1);
+        int i = 3, run = 0;
+        while (i < argc)
+        {
+            std::string text = unhex(argv[i++]);
+            g_f.clear(); g_b.clear();
+            while (i < argc && strcmp(argv[i], "--"))
+            {
+                if (argv[i][0] == 'f') { int id = atoi(argv[i] + 1); unsigned bits = (unsigned)strtoul(strchr(argv[i], '=') + 1, nullptr, 16); float f; memcpy(&f, &bits, 4); g_f[id] = f; }
+                else if (argv[i][0] == 'b') { int id = atoi(argv[i] + 1); g_b[id] = atoi(strchr(argv[i], '=') + 1); }
+                i++;
+            }
+            i++;
+            printf("RUN %d\n", run);
+            char* buf = (char*)malloc(text.size() ? text.size() : 1); memcpy(buf, text.data(), text.size());
+            int r = w_vm_run_sqf(vm, buf, text.size(), 0);
+            printf("RESULT %d STATE %d\n", r, w_vm_state(vm));
+            if (r == 2) w_vm_execute(vm, 3);
+            run++;
+        }
+        return 0;
+    }
     if (op == "run")
     {
         int ops = atoi(argv[2]); int pp = atoi(argv[3]); std::string text = unhex(argv[4]);
